@@ -155,9 +155,12 @@ def _run_case(case):
                 tol = exact + scale * scale
             if "score" not in res or isinstance(res["score"], bool) or not isinstance(res["score"], (int, float, Fraction)):
                 raise Violation("aggregate", f"{tag}: combination {i} has no numeric score: {res.get('score')!r}")
-            ok = (Fraction(res["score"]) == exact) if (tol == 0 or not is_float and exact.denominator == 1) else _close(res["score"], exact, tol, n)
-            if not is_float and not ok:
-                ok = isinstance(res["score"], float) and _safe_float(exact) == res["score"]
+            if tol == 0 or (not is_float and exact.denominator == 1):
+                ok = Fraction(res["score"]) == exact             # min/max, and integer-valued aggregates of integer scores: exact
+            elif not is_float:
+                ok = isinstance(res["score"], float) and _safe_float(exact) == res["score"]      # the correctly rounded quotient
+            else:
+                ok = _close(res["score"], exact, tol, n)
             if not ok:
                 raise Violation(f"aggregate-{mode.name}", f"{tag}: combination {i} records {want}: reported score {res['score']!r}, exact value {exact} (~{_safe_float(exact)})")
             aggs.append(res["score"])
@@ -220,11 +223,14 @@ def strategy(tier):
             reps = max(reps, 2)
         if is_float:
             base = wone_of(st.integers(-64, 64).map(lambda k: k / 8.0), st.integers(-2 ** 20, 2 ** 20).map(lambda k: k / 8.0))
-            if mode < 6:
+            if mode < 4:       # min / max / mean stay finite for any finite scores (sum and variance may legitimately overflow)
+                base = wone_of(base, base, base, st.sampled_from([1e300, -1e300, 1e18, -3.5e17, 1.7e308, -1.7e308, 1.5e308]))
+            elif mode < 6:
                 base = wone_of(base, base, base, st.sampled_from([1e300, -1e300, 1e18, -3.5e17]))
         else:
             big = st.sampled_from([MAXSIZE, -MAXSIZE, MAXSIZE + 1, -MAXSIZE - 1, 4 * MAXSIZE, 8 * MAXSIZE, 12 * MAXSIZE,
-                                   -4 * MAXSIZE, -8 * MAXSIZE, 2 ** 70, -2 ** 70])
+                                   -4 * MAXSIZE, -8 * MAXSIZE, 2 ** 70, -2 ** 70, 2 ** 53 + 1, 2 ** 53 + 3, 10 ** 17 + 3,
+                                   10 ** 17 + 1, -(2 ** 60) - 7, 10 ** 17 + 5])
             kind = draw(st.integers(0, 5))
             if kind == 0:
                 base = big
